@@ -2,6 +2,7 @@ package hx
 
 import (
 	"fmt"
+	"reflect"
 	"time"
 
 	hdf5 "github.com/scigolib/hdf5"
@@ -308,7 +309,10 @@ func (e *Exec) do(op *Op) (err error, skipped string) {
 		}
 		e.DS[op.Path] = ds
 		if op.Data != nil {
-			return ds.WriteRaw(op.Data.B), ""
+			b := append([]byte(nil), op.Data.B...)
+			werr := ds.WriteRaw(b)
+			Poison(b)
+			return werr, ""
 		}
 		return nil, ""
 	case "write":
@@ -325,10 +329,16 @@ func (e *Exec) do(op *Op) (err error, skipped string) {
 		return ds.Resize(op.Dims), ""
 	case "attr":
 		if ds := e.DS[op.Path]; ds != nil {
-			return ds.WriteAttribute(op.Name, op.Data.Go()), ""
+			g := op.Data.Go()
+			aerr := ds.WriteAttribute(op.Name, g)
+			Poison(g)
+			return aerr, ""
 		}
 		if g := e.GR[op.Path]; g != nil {
-			return g.WriteAttribute(op.Name, op.Data.Go()), ""
+			gv := op.Data.Go()
+			aerr := g.WriteAttribute(op.Name, gv)
+			Poison(gv)
+			return aerr, ""
 		}
 		return nil, "no handle"
 	case "delattr":
@@ -487,9 +497,43 @@ func (e *Exec) do(op *Op) (err error, skipped string) {
 
 func (e *Exec) write(ds *hdf5.DatasetWriter, op *Op) error {
 	if op.Data.Kind == "raw" {
-		return ds.WriteRaw(op.Data.B)
+		b := append([]byte(nil), op.Data.B...)
+		err := ds.WriteRaw(b)
+		Poison(b)
+		return err
 	}
-	return ds.Write(op.Data.Go())
+	g := op.Data.Go()
+	err := ds.Write(g)
+	Poison(g)
+	return err
+}
+
+// Poison overwrites what the caller passed to a write call once the call has returned (every
+// element of every slice, nested ones too): a caller may reuse its buffers, so a library that
+// kept a reference instead of the values shows the poison in the file.
+func Poison(v interface{}) {
+	poisonValue(reflect.ValueOf(v))
+}
+
+func poisonValue(rv reflect.Value) {
+	if rv.Kind() != reflect.Slice {
+		return
+	}
+	for i := 0; i < rv.Len(); i++ {
+		el := rv.Index(i)
+		switch el.Kind() {
+		case reflect.Slice:
+			poisonValue(el)
+		case reflect.Int, reflect.Int8, reflect.Int16, reflect.Int32, reflect.Int64:
+			el.SetInt(0x5A)
+		case reflect.Uint, reflect.Uint8, reflect.Uint16, reflect.Uint32, reflect.Uint64:
+			el.SetUint(0x5A)
+		case reflect.Float32, reflect.Float64:
+			el.SetFloat(-90.5)
+		case reflect.String:
+			el.SetString("POISONED-AFTER-RETURN")
+		}
+	}
 }
 
 // Step executes one op, recovering panics.
